@@ -1196,5 +1196,135 @@ func main() {
 			}
 		}
 	}
+
+	// 6. ServeTCP's own decision (Model/SniServe.v) on streams that are too small to be a
+	// ClientHello and on the smallest ones that are: the branches of ServeTCP AFTER the parser
+	// ("unable to parse client hello", "server_name missing") run on a buffer of 10 bytes and
+	// up, so anything there that touches data[i] without a length check panics only on records
+	// this short.  A random source of its own: the classes above keep their inputs.
+	tr := rand.New(rand.NewSource(run.Seed*7919 + 10))
+	addServe := func(class string, stream []byte, note string) {
+		segs := segment(tr, stream)
+		tlsCoq, _, _ := tlsCoqOf(stream)
+		impl, n := implStream(segs)
+		run.Add(class, vh.App("CServe", vh.Hx(stream), impl, coqOptN(n), tlsCoq),
+			map[string]interface{}{"fn": "SNIProxy.ServeTCP", "stream_hex": fmt.Sprintf("%x", stream[:min(len(stream), 64)]), "stream_len": len(stream), "segments": len(segs), "consumed": n, "impl": impl, "note": note})
+	}
+	hsStream := func(rl, hl int, body []byte) []byte {
+		v := recVersions[tr.Intn(len(recVersions))]
+		s := []byte{22, v[0], v[1], byte(rl >> 8), byte(rl), 1, byte(hl >> 16), byte(hl >> 8), byte(hl)}
+		return append(s, body...)
+	}
+	tinyBody := func(n int) []byte {
+		switch tr.Intn(3) {
+		case 0:
+			return make([]byte, n)
+		case 1:
+			return bytes.Repeat([]byte{0xff}, n)
+		}
+		return randBytes(tr, n)
+	}
+	// (i) every handshake length 0..6 (thorough: 0..12) x record length exact / one more /
+	// the smallest legal 5.. / one too small / 2^14, the body complete; for the exact record
+	// every truncation 0..len, for the others the cuts around the ends; with bytes behind
+	for hl := 0; hl <= run.Scale(6, 12); hl++ {
+		seenRl := map[int]bool{}
+		for k, rl := range []int{hl + 4, hl + 5, 5, hl + 3, 16384, hl + 4 + 1 + tr.Intn(300)} {
+			if rl < 0 || seenRl[rl] {
+				continue
+			}
+			seenRl[rl] = true
+			full := hsStream(rl, hl, tinyBody(hl))
+			note := fmt.Sprintf("hl=%d rl=%d", hl, rl)
+			if k == 0 {
+				for cut := 0; cut <= len(full); cut++ {
+					addServe("tiny-record-stream", full[:cut], fmt.Sprintf("%s cut=%d of %d", note, cut, len(full)))
+				}
+			} else {
+				seenCut := map[int]bool{}
+				for _, cut := range []int{9, len(full) - 1, len(full)} {
+					if !seenCut[cut] {
+						seenCut[cut] = true
+						addServe("tiny-record-stream", full[:cut], fmt.Sprintf("%s cut=%d of %d", note, cut, len(full)))
+					}
+				}
+			}
+			addServe("tiny-record-stream", append(append([]byte(nil), full...), randBytes(tr, 1+tr.Intn(40))...), note+" +following bytes")
+		}
+	}
+	// the smallest hello bodies that parse, as byte strings written down here (not through the
+	// AST encoder): 38 bytes = version, random, three empty vectors; then one cipher suite and the
+	// null compression; an empty extension block; a server_name extension with the name "a"
+	minBody := func(sid int, ciphers, comp bool, exts []byte, hasExts bool) []byte {
+		b := []byte{3, 3}
+		b = append(b, randBytes(tr, 32)...)
+		b = append(b, byte(sid))
+		b = append(b, randBytes(tr, sid)...)
+		if ciphers {
+			b = append(b, 0, 2, 0x13, 0x01)
+		} else {
+			b = append(b, 0, 0)
+		}
+		if comp {
+			b = append(b, 1, 0)
+		} else {
+			b = append(b, 0)
+		}
+		if hasExts {
+			b = append(b, be16(len(exts))...)
+			b = append(b, exts...)
+		}
+		return b
+	}
+	sniA := []byte{0, 0, 0, 6, 0, 4, 0, 0, 1, 'a'}
+	// (ii) every handshake length 7..60 with the body complete: alternately random bytes and the
+	// first hl bytes of a valid hello body (every field so far consistent, the message just ends)
+	for hl := 7; hl <= 60; hl++ {
+		reps := 1
+		if hl >= 36 && hl <= 44 {
+			reps = 2
+		}
+		for k := 0; k < reps*run.Scale(1, 4); k++ {
+			var body []byte
+			if (hl+k)%2 == 0 {
+				body = randBytes(tr, hl)
+			} else {
+				body = append(minBody(0, true, true, sniA, true), make([]byte, 60)...)[:hl]
+			}
+			rl := hl + 4
+			if tr.Intn(3) == 0 {
+				rl += 1 + tr.Intn(50)
+			}
+			s := hsStream(rl, hl, body)
+			addServe("short-hello-stream", append(s, randBytes(tr, tr.Intn(30))...), fmt.Sprintf("hl=%d rl=%d", hl, rl))
+		}
+	}
+	// (iii) the smallest hellos: complete (the 38-byte one takes the "server_name missing" branch
+	// on a 47-byte buffer, the one with the name "a" is the smallest routed), the last one / two
+	// bytes missing, the handshake length one less / one more than the body
+	type minimal struct {
+		note string
+		body []byte
+	}
+	for rep := 0; rep < run.Scale(1, 6); rep++ {
+		for _, m := range []minimal{
+			{"38 bytes: all vectors empty", minBody(0, false, false, nil, false)},
+			{"one cipher suite, null compression", minBody(0, true, true, nil, false)},
+			{"empty extension block", minBody(0, true, true, nil, true)},
+			{"all vectors empty + empty extension block", minBody(0, false, false, nil, true)},
+			{"session id of 1", minBody(1, true, true, nil, false)},
+			{"session id of 32", minBody(32, true, true, nil, false)},
+			{"server_name a", minBody(0, true, true, sniA, true)},
+			{"server_name a, vectors empty", minBody(0, false, false, sniA, true)},
+		} {
+			hl := len(m.body)
+			full := hsStream(hl+4, hl, m.body)
+			addServe("minimal-hello-stream", append(append([]byte(nil), full...), randBytes(tr, tr.Intn(20))...), m.note)
+			addServe("minimal-hello-stream", full[:len(full)-1], m.note+", last byte missing")
+			addServe("minimal-hello-stream", full[:len(full)-2], m.note+", last two bytes missing")
+			addServe("minimal-hello-stream", append(hsStream(hl+4, hl-1, m.body), randBytes(tr, tr.Intn(20))...), m.note+", handshake length one less")
+			addServe("minimal-hello-stream", append(hsStream(hl+5, hl+1, m.body), byte(tr.Intn(256))), m.note+", handshake length one more, one byte follows")
+		}
+	}
 	run.Finish(preamble, run.Scale(120, 400))
 }
